@@ -9,7 +9,7 @@ TRUSTED_BASE = ["Lean 4.33 kernel", "axioms: propext, Classical.choice, Quot.sou
 ASSUMPTIONS = ["serialisability of operations on different objects whose directory footprints share an ancestor that one of them may remove while empty is examined by racing runs only",
                "reset --all and purge take no lock (as the statement lists)"]
 CORRESPONDENCE = "Lock.step/run (lean/RocflModel/Lock.lean) vs lock.rs acquire/Drop as observed in the strace of every locked operation"
-BUDGET = {"quick": dict(histories=12, ops=10, seconds=150, races=6), "thorough": dict(histories=300, ops=22, seconds=1500, races=200)}
+BUDGET = {"quick": dict(histories=30, ops=12, seconds=150, races=10), "thorough": dict(histories=300, ops=22, seconds=1500, races=200)}
 RULE = ("histories of real CLI invocations under strace (lock coverage of every mutating call), the same operations run while another holder owns the "
         "object's lock (must fail at once, change nothing), and races of 3 simultaneous processes on one object and on different objects; "
         "distinct non-trivial = distinct (operation, exit status, lock situation)")
